@@ -170,6 +170,9 @@ func (s *c19Sweeper) variants(desc protoreflect.MessageDescriptor, path []protor
 				s.pools.rng.Read(b)
 				set(fmt.Sprintf("random%d", n), protoreflect.ValueOfBytes(b))
 			}
+			for ki, k := range c19SpecialKeys {
+				set(fmt.Sprintf("degenerate-key#%d", ki), protoreflect.ValueOfBytes(k))
+			}
 			for vi, v := range s.pools.bytes {
 				set(fmt.Sprintf("harvested#%d(%dB)", vi, len(v)), protoreflect.ValueOfBytes(v))
 				if len(v) > 1 {
